@@ -149,6 +149,20 @@ var specs = map[string]*propSpec{
 		runs:        []runSpec{{engine: "addr4", netns: true, parallel: 8, qBatches: 3, qCases: 8, tBatches: 12, tCases: 8}},
 		guards:      []guard{{"addr4.rows.l2", 40, "link-level rows"}, {"addr4.rows.udp_pinned", 300, "pinned rows"}, {"addr4.rows.udp", 1000, "udp rows"}},
 	},
+	"C16": {
+		level: "exploration",
+		rule: "four -race workloads, every datagram on its own goroutine with buffers from the server's pool: (raceserver) DHCPv4 and DHCPv6 full chains in one process - server_id, sleep 200us (widens parse/bufpool.Put -> lease plugin), file autorefresh, range|prefix, option plugins - bursts of 4-64 datagrams (same client, distinct clients, pool nearly exhausted, mixed; direct and relayed) while both static lease files are rewritten in place concurrently; replies must echo their own request's xid/chaddr/client-id, leases stay in range/injective/sticky, prefixes disjoint/sticky, static versions per client never go backwards and are never a mixture; (rangeconc, prefixconc, allocconc) recorded call/return histories checked for linearizability with porcupine against the lease, prefix and allocator models. The Go race detector's log (halt_on_error=0) is parsed by the driver: any report with a coredhcp frame on either stack is a violation, deduplicated by outermost entry-point pair. Non-trivial = history with >= 1 truly overlapping pair of operations; distinct by (case, interleaving fingerprint)",
+		assumptions: assume("the race detector only judges accesses that executed; schedules are those the Go scheduler produced on this machine (overlap and buffer-reuse counts are in the evidence)", "porcupine timeouts are inconclusive"),
+		runs: []runSpec{
+			{engine: "raceserver", race: true, parallel: 8, qBatches: 8, qCases: 3, tBatches: 48, tCases: 6, stall: 6 * time.Minute},
+			{engine: "rangeconc", race: true, parallel: 8, qBatches: 8, qCases: 8, tBatches: 32, tCases: 30},
+			{engine: "prefixconc", race: true, parallel: 8, qBatches: 8, qCases: 8, tBatches: 32, tCases: 30},
+			{engine: "allocconc", race: true, parallel: 8, qBatches: 8, qCases: 20, tBatches: 32, tCases: 100},
+		},
+		raceDecides: true,
+		guards: []guard{{"race.overlapping_pairs", 5000, "overlapping datagram pairs"}, {"race.buffer_reuse_in_flight", 50, "pool buffers reused while a handler of an earlier datagram was in flight"},
+			{"race.static_versions_seen", 20, "static versions observed during refresh"}, {"rangeconc.porcupine_ok", 40, "range histories"}, {"prefixconc.porcupine_ok", 40, "prefix histories"}, {"allocconc.porcupine_ok", 100, "allocator histories"}},
+	},
 	"C17": {
 		level: "exploration",
 		rule: "each case is one option plugin with an argument vector from its accepted grammar (1-4 addresses, masks /1-/32, MTU 68-65535, durations, 1-4 domains with labels up to 63 bytes, 1-4 routes incl. /0 and /32, tftp/http/https/ftp URLs with and without params), hosted alone in a fresh server process, and 48 requests (DISCOVER/REQUEST or SOLICIT/REQUEST/RENEW/INFORMATION-REQUEST; option 55 / ORO = random subsets of the relevant codes in random order, or absent; option 116 present or not; yiaddr assigned by an earlier handler or not; option 51 already set or not). Differential oracle: reply with the plugin vs reply of the same chain without it must differ exactly by the table in model/opts.go (value encoded independently from the RFCs, present once, untouched otherwise, chain continues/stops/drops as stated). Non-trivial = every (configuration, request) pair evaluated; distinct by (plugin, args, request list, flags)",
